@@ -341,4 +341,28 @@ theorem filter_arrays_from_source (ids authors : List Bytes) (kinds : List Nat) 
       flat32_length authors ha, flatKinds_length]; omega)]
   simp only [flatW_id, flatW_kinds, List.drop_drop]
 
+/-! ### what `from_parts` refuses -/
+
+/-- `Event::from_parts` refuses exactly what the source's tests refuse today (in whatever order: every refusal is an error) -/
+theorem event_rejections_from_source (id pk sig : Bytes) (kind t : Nat) (tagBytes content buf : Bytes) :
+    eventFromParts id pk sig kind t tagBytes content buf =
+      if Src.eventRejects (Src.eventSize tagBytes.length content.length) buf.length then .err
+      else .ok (Src.encodeEventWith id pk sig kind t tagBytes content ++ buf.drop (Src.eventSize tagBytes.length content.length)) := by
+  rw [event_writer_from_source, event_size_from_source]
+  unfold eventFromParts Src.eventRejects
+  by_cases h1 : eventSize tagBytes.length content.length > 4294967295 <;>
+    by_cases h2 : buf.length < eventSize tagBytes.length content.length <;> simp [h1, h2]
+
+/-- `Filter::from_parts` likewise: the three counts against `u16::MAX`, the size against `u32::MAX`, the buffer against the size -/
+theorem filter_rejections_from_source (ids authors : List Bytes) (kinds : List Nat) (tagBytes : Bytes) (since «until» limit : Nat) (buf : Bytes) :
+    filterFromParts ids authors kinds tagBytes since «until» limit buf =
+      if Src.filterRejects ids.length authors.length kinds.length (filterSize ids.length authors.length kinds.length tagBytes.length) buf.length
+      then .err
+      else .ok (encodeFilterWith ids authors kinds tagBytes since «until» limit ++
+                buf.drop (filterSize ids.length authors.length kinds.length tagBytes.length)) := by
+  unfold filterFromParts Src.filterRejects
+  by_cases h0 : ids.length > 65535 <;> by_cases h0' : authors.length > 65535 <;> by_cases h0'' : kinds.length > 65535 <;>
+    by_cases h1 : filterSize ids.length authors.length kinds.length tagBytes.length > 4294967295 <;>
+    by_cases h2 : buf.length < filterSize ids.length authors.length kinds.length tagBytes.length <;> simp [h0, h0', h0'', h1, h2]
+
 end Pocket
